@@ -245,13 +245,16 @@ impl Hist {
     }
 
     fn do_solve(&self, solver: &mut DefaultSolver<f64>, model: &Model, base: &Prob, ctx: &mut Ctx) -> CaseResult {
-        guarded(|| solver.solve()).map_err(|e| Violation::new("panic-in-solve-after-updates", e))?;
+        clarabel::verif_hooks::observer_arm();
+        let solved = guarded(|| solver.solve());
+        let iters = clarabel::verif_hooks::observer_take();
+        solved.map_err(|e| Violation::new("panic-in-solve-after-updates", e))?;
         ctx.transitions += 1;
         if model.unspecified.iter().any(|u| *u) {
             ctx.outcome("solve-with-unspecified-component");
             return Ok(());
         }
-        let r = extract(solver, vec![]);
+        let r = extract(solver, iters);
         let mp = self.model_problem(model, base);
         let ss = self.settings();
         let fresh = run_solver(&mp, &ss, false).map_err(|e| Violation::new("machinery-fresh-solver-panic", e))?;
@@ -268,6 +271,7 @@ impl Hist {
         }
         // the result must be a truthful, certified result for the model data
         judge_c01(&mp, &ss, &r, 1e20)?;
+        judge_c02(&mp, &ss, &r, 1e20)?;
         judge_c03(&mp, &ss, &r, 1e20)?;
         ctx.outcome(&format!("solve-agrees-{}", cf));
         ctx.nontrivial += 1;
